@@ -5,6 +5,18 @@ import "fmt"
 func registry() []PropSpec {
 	return []PropSpec{
 		{
+			ID: "C06",
+			Quick: []HarnessSpec{
+				{Pkg: pkgCC, Func: "H06a_q", Unwind: 8, TimeoutMs: 400000, Solvers: []string{"z3-new"}, JobSecs: 900, Note: "features: each of the 5 axis lists of symbolic length <=2 with arbitrary (repeated, unordered) valid enum elements, 7 tri-state flags; arbitrary probe case (all 10 fields symbolic, including out-of-range values)"},
+				{Pkg: pkgCC, Func: "H06r2_q", Unwind: 8, TimeoutMs: 600000, Solvers: []string{"z3-new"}, JobSecs: 1200, Note: "two include/exclude entries (every field independently set or omitted) resolved in sequence against symbolic features (axis lists of length <=1, 7 tri-state flags); arbitrary probe case"},
+			},
+			Thorough: []HarnessSpec{
+				{Pkg: pkgCC, Func: "H06a_t", Unwind: 8, Note: "as quick with axis lists of length <=3", JobSecs: 3000, ExecSecs: 1200, TimeoutMs: 1500000},
+			},
+			Stubs: []string{"protoyaml Unmarshal replaced by a stub that installs the symbolic Config (natively: the Config is marshalled to JSON and really parsed)", "os.Stderr deprecation warning is a no-op"},
+			Out:   []string{"YAML syntax", "literal error texts"},
+		},
+		{
 			ID: "C14",
 			Quick: []HarnessSpec{
 				{Pkg: pkgTracer, Func: "H14a_resp_q", Unwind: 40, CaseGen: c14Cases(2, 2, 2), CaseNote: c14Note(2, 2, 2), Note: "response body: <=2 enveloped messages (any flags byte, any payload bytes), terminal condition EOF / read error (also mid-data) / Close (ok or failing) symbolic; no decompressor"},
